@@ -4,6 +4,7 @@ CONSTANTS
  MaxCrash = 1
  MarkerMode = "rewrite"
  MarkerWindow = FALSE
+ MaxFault = 0
 INIT Init
 NEXT Next
 INVARIANTS TypeOK NoStuck CrashStateOK ReturnOK RetryOK
